@@ -126,6 +126,7 @@ function runOnce(script, choices, opts) {
   const sandbox = m.sandbox;
   const out = run.out, points = run.points, timers = run.timers;
   if (opts.globals) for (const k of Object.keys(opts.globals)) sandbox[k] = opts.globals[k];
+  if (opts.contextScript) opts.contextScript.runInContext(m.ctx);
 
   let end = null;
   const guard = (f) => {
@@ -203,7 +204,9 @@ if (require.main === module) {
       }
       const probeLog = [];
       if (req.probe) req.globals.verifProbe = (n) => { probeLog.push(['p', n + '|' + new Error().stack]); return n; };
-      const r = runOnce(s, req.choices || [], { globals: req.globals, maxTimers: req.maxTimers, fifoTimers: req.fifoTimers, keepStack: req.keepStack });
+      let contextScript;
+      if (req.contextScript) contextScript = loadScript(req.contextScript);
+      const r = runOnce(s, req.choices || [], { contextScript, globals: req.globals, maxTimers: req.maxTimers, fifoTimers: req.fifoTimers, keepStack: req.keepStack });
       for (const e of probeLog) r.out.push(e);
       process.stdout.write(JSON.stringify({ id: req.id, out: r.out, end: r.end, points: r.points, diverged: r.diverged }) + '\n');
     } catch (e) {
